@@ -13,14 +13,15 @@ Module D := Spec.Defs.
 Module DB := Proofs.DefsEquivBase.
 
 (* ---- the tables of a constructed document, flat ----------------------------------------------------------------- *)
-Record ftab : Type := mkF { f_P : list bytes; f_a : bool; f_l : list (bytes * item); f_pos : option N }.
-Definition f_tbl (f : ftab) : tbl * list key * bool := (the_tbl (f_l f) (f_pos f), map key_new (f_P f), f_a f).
+Record ftab : Type := mkF { f_P : list bytes; f_a : bool; f_im : bool; f_l : list (bytes * item); f_pos : option N }.
+Definition f_tbl (f : ftab) : tbl * list key * bool := (the_tbl (f_im f) (f_l f) (f_pos f), map key_new (f_P f), f_a f).
 
-Definition hdr_stmt (P : list bytes) (a : bool) : list (D.stmt aval) :=
-  match P with [] => [] | _ => [if a then D.SArrHeader P else D.SHeader P] end.
+Definition hdr_stmt (P : list bytes) (a sh : bool) : list (D.stmt aval) :=
+  match P with [] => [] | _ => if sh then [if a then D.SArrHeader P else D.SHeader P] else [] end.
 Definition val_stmts (l : list (bytes * item)) : list (D.stmt aval) :=
   flat_map (fun kv => match snd kv with IValue v => [D.SKeyVal [fst kv] (abs_value v)] | _ => [] end) l.
-Definition ftab_stmts (f : ftab) : list (D.stmt aval) := hdr_stmt (f_P f) (f_a f) ++ val_stmts (f_l f).
+Definition ftab_stmts (f : ftab) : list (D.stmt aval) :=
+  hdr_stmt (f_P f) (f_a f) (shown (f_a f) (f_im f) (f_l f)) ++ val_stmts (f_l f).
 
 Definition item_tables (path : list key) (it : item) : list (tbl * list key * bool) :=
   match it with
@@ -29,27 +30,27 @@ Definition item_tables (path : list key) (it : item) : list (tbl * list key * bo
   | _ => []
   end.
 
-Lemma tbl_tables_the l pos path a :
-  tbl_tables (the_tbl l pos) path a
-  = (the_tbl l pos, path, a) :: flat_map (fun kv => item_tables (path ++ [key_new (fst kv)]) (snd kv)) l.
+Lemma tbl_tables_the im l pos path a :
+  tbl_tables (the_tbl im l pos) path a
+  = (the_tbl im l pos, path, a) :: flat_map (fun kv => item_tables (path ++ [key_new (fst kv)]) (snd kv)) l.
 Proof.
   unfold the_tbl. cbn [tbl_tables app]. f_equal. unfold mk_tbl_items.
   induction l as [|[k it] l IH]; [reflexivity|]. cbn [map flat_map fst snd]. rewrite IH. reflexivity.
 Qed.
 
-Lemma abs_tbl_the l pos :
-  abs_tbl (the_tbl l pos) = flat_map (fun kv => map (fun n => (fst kv, n)) (abs_item (snd kv))) l.
+Lemma abs_tbl_the im l pos :
+  abs_tbl (the_tbl im l pos) = flat_map (fun kv => map (fun n => (fst kv, n)) (abs_item (snd kv))) l.
 Proof.
   unfold the_tbl. cbn [abs_tbl]. unfold mk_tbl_items.
   induction l as [|[k it] l IH]; [reflexivity|]. cbn [map flat_map fst snd k_key key_new]. rewrite IH. reflexivity.
 Qed.
 
-Lemma hdepth_the l pos : tbl_hdepth (the_tbl l pos) = fold_right (fun kv acc => Nat.max (item_hdepth (snd kv)) acc) 0 l.
+Lemma hdepth_the im l pos : tbl_hdepth (the_tbl im l pos) = fold_right (fun kv acc => Nat.max (item_hdepth (snd kv)) acc) 0 l.
 Proof.
   unfold the_tbl. cbn [tbl_hdepth]. unfold mk_tbl_items. induction l as [|[k it] l IH]; [reflexivity|].
   cbn [map fold_right fst snd]. rewrite IH. reflexivity.
 Qed.
-Lemma vdepth_the l pos : tbl_vdepth (the_tbl l pos) = fold_right (fun kv acc => Nat.max (item_vdepth (snd kv)) acc) 0 l.
+Lemma vdepth_the im l pos : tbl_vdepth (the_tbl im l pos) = fold_right (fun kv acc => Nat.max (item_vdepth (snd kv)) acc) 0 l.
 Proof.
   unfold the_tbl. cbn [tbl_vdepth]. unfold mk_tbl_items. induction l as [|[k it] l IH]; [reflexivity|].
   cbn [map fold_right fst snd]. rewrite IH. reflexivity.
@@ -73,17 +74,20 @@ Section Flat.
 
   Definition item_claim (it : item) : Prop :=
     forall P0 k, Forall PK P0 -> PK k ->
-    exists Fs n, abs_item it = [n] /\ wf_node n /\
+    exists Fs n, abs_item it = [forget n] /\ wf_node n /\
       item_tables (map key_new (P0 ++ [k])) it = map f_tbl Fs /\
       Forall (f_ok (length P0 + item_hdepth it) (item_vdepth it)) Fs /\
-      flat_map ftab_stmts Fs = node_stmts (P0 ++ [k]) n.
+      flat_map ftab_stmts Fs = node_stmts (P0 ++ [k]) n /\
+      (item_prints it = true -> (exists a, n = SVal a) \/ forall P, node_stmts P n <> []).
 
   Definition entries_claim (l : list (bytes * item)) : Prop :=
-    forall P a pos, (pos = None \/ pos = Some 0%N) -> Forall PK P ->
-    exists Fs L, abs_tbl (the_tbl l pos) = L /\ wf_entries L /\
-      tbl_tables (the_tbl l pos) (map key_new P) a = map f_tbl Fs /\
-      Forall (f_ok (length P + tbl_hdepth (the_tbl l pos)) (tbl_vdepth (the_tbl l pos))) Fs /\
-      flat_map ftab_stmts Fs = hdr_stmt P a ++ body_stmts P L.
+    forall P a im pos, (pos = None \/ pos = Some 0%N) -> Forall PK P ->
+    exists Fs L, abs_tbl (the_tbl im l pos) = forget_entries L /\ wf_entries L /\
+      tbl_tables (the_tbl im l pos) (map key_new P) a = map f_tbl Fs /\
+      Forall (f_ok (length P + tbl_hdepth (the_tbl im l pos)) (tbl_vdepth (the_tbl im l pos))) Fs /\
+      flat_map ftab_stmts Fs = hdr_stmt P a (shown a im l) ++ body_stmts P L /\
+      kv_stmts L = val_stmts l /\
+      (existsb (fun kv => item_prints (snd kv)) l = true -> forall P', body_stmts P' L <> []).
 End Flat.
 
 Section Claims.
@@ -95,44 +99,70 @@ Section Claims.
 
   Lemma claim_value v : BuiltValue PS PK v -> item_claim (IValue v).
   Proof.
-    intros _ P0 k _ _. exists [], (AVal (abs_value v)). repeat split; try reflexivity; constructor.
+    intros _ P0 k _ _. exists [], (SVal (abs_value v)).
+    split; [reflexivity|]. split; [constructor|]. split; [reflexivity|]. split; [constructor|]. split; [reflexivity|].
+    intros _. left. eexists. reflexivity.
   Qed.
 
-  Lemma hdr_stmt_snoc P0 k a : hdr_stmt (P0 ++ [k]) a = [if a then D.SArrHeader (P0 ++ [k]) else D.SHeader (P0 ++ [k])].
+  Lemma hdr_stmt_snoc P0 k a sh :
+    hdr_stmt (P0 ++ [k]) a sh = if sh then [if a then D.SArrHeader (P0 ++ [k]) else D.SHeader (P0 ++ [k])] else [].
   Proof. unfold hdr_stmt. destruct (P0 ++ [k]) eqn:E; [destruct P0; discriminate|reflexivity]. Qed.
 
-  Lemma claim_table l : entries_claim l -> item_claim (ITable (Tbl (mk_tbl_items l) decor_default false false None None)).
+  Lemma val_stmts_nil l : val_lines l = [] -> val_stmts l = [].
   Proof.
-    intros Hl P0 k HP Hk.
-    assert (HP' : Forall PK (P0 ++ [k])) by (apply Forall_app; split; [exact HP|constructor; [exact Hk|constructor]]).
-    destruct (Hl (P0 ++ [k]) false None (or_introl eq_refl) HP') as (Fs & L & Eabs & Hwf & Etab & Hok & Estm).
-    change (Tbl (mk_tbl_items l) decor_default false false None None) with (the_tbl l None).
-    exists Fs, (ATbl L). split; [cbn [abs_item]; rewrite Eabs; reflexivity|].
-    split; [destruct Hwf as [H1 H2]; constructor; assumption|].
-    split; [exact Etab|]. split.
-    - eapply Forall_impl; [|exact Hok]. intros f Hf. eapply f_ok_mono; [| |exact Hf].
-      + rewrite app_length. cbn [length item_hdepth]. lia.
-      + cbn [item_vdepth]. lia.
-    - rewrite Estm, hdr_stmt_snoc, node_stmts_tbl. reflexivity.
+    unfold val_lines, val_stmts. induction l as [|[k it] l IH]; [reflexivity|]. cbn [flat_map fst snd].
+    destruct it; cbn [app]; try exact IH. discriminate.
   Qed.
 
-  Lemma claim_aot ls : Forall entries_claim ls ->
-    item_claim (IAot (map (fun l => Tbl (mk_tbl_items l) decor_default false false None None) ls) None).
+  Lemma tbl_prints_the im l pos : tbl_prints (the_tbl im l pos) = existsb (fun kv => item_prints (snd kv)) l.
+  Proof.
+    unfold the_tbl. cbn [tbl_prints]. unfold mk_tbl_items. induction l as [|[k it] l IH]; [reflexivity|].
+    cbn [map existsb fst snd]. rewrite IH. reflexivity.
+  Qed.
+
+  Lemma claim_table im l : entries_claim l -> (im = true -> existsb (fun kv => item_prints (snd kv)) l = true) ->
+    item_claim (ITable (Tbl (mk_tbl_items l) decor_default im false None None)).
+  Proof.
+    intros Hl Hp P0 k HP Hk.
+    assert (HP' : Forall PK (P0 ++ [k])) by (apply Forall_app; split; [exact HP|constructor; [exact Hk|constructor]]).
+    destruct (Hl (P0 ++ [k]) false im None (or_introl eq_refl) HP') as (Fs & L & Eabs & Hwf & Etab & Hok & Estm & Hkv & Hpr).
+    change (Tbl (mk_tbl_items l) decor_default im false None None) with (the_tbl im l None).
+    set (hid := im && match val_lines l with [] => true | _ => false end).
+    assert (Esh : shown false im l = negb hid) by reflexivity.
+    assert (Hhid : hid = true -> kv_stmts L = [] /\ forall P', body_stmts P' L <> []).
+    { unfold hid. intro H. apply andb_true_iff in H as [Him Hnv]. split.
+      - rewrite Hkv. apply val_stmts_nil. destruct (val_lines l); [reflexivity|discriminate].
+      - apply Hpr, Hp, Him. }
+    exists Fs, (STbl hid L). split; [cbn [abs_item forget]; rewrite Eabs; reflexivity|].
+    split.
+    { destruct Hwf as [H1 H2]. constructor; [exact H1|exact H2|]. intro H. destruct (Hhid H) as [A B]. split; [exact A|apply B]. }
+    split; [exact Etab|]. split.
+    { eapply Forall_impl; [|exact Hok]. intros f Hf. eapply f_ok_mono; [| |exact Hf].
+      - rewrite app_length. cbn [length item_hdepth]. lia.
+      - cbn [item_vdepth]. lia. }
+    split.
+    { rewrite Estm, hdr_stmt_snoc, node_stmts_tbl, Esh. destruct hid; reflexivity. }
+    intros _. right. intro P. rewrite node_stmts_tbl. destruct hid eqn:Eh; [|discriminate].
+    cbn [app]. apply (proj2 (Hhid eq_refl)).
+  Qed.
+
+  Lemma claim_aot (ls : list (bool * list (bytes * item))) : Forall (fun x => entries_claim (snd x)) ls ->
+    item_claim (IAot (map (fun x => Tbl (mk_tbl_items (snd x)) decor_default (fst x) false None None) ls) None).
   Proof.
     intros Hls P0 k HP Hk.
     assert (HP' : Forall PK (P0 ++ [k])) by (apply Forall_app; split; [exact HP|constructor; [exact Hk|constructor]]).
-    set (ts := map (fun l => Tbl (mk_tbl_items l) decor_default false false None None) ls).
-    assert (G : exists Fs Ls, map abs_tbl ts = Ls /\ Forall wf_entries Ls /\
+    set (ts := map (fun x : bool * list (bytes * item) => Tbl (mk_tbl_items (snd x)) decor_default (fst x) false None None) ls).
+    assert (G : exists Fs Ls, map abs_tbl ts = map forget_entries Ls /\ Forall wf_entries Ls /\ length Ls = length ls /\
                 flat_map (fun sub => tbl_tables sub (map key_new (P0 ++ [k])) true) ts = map f_tbl Fs /\
                 Forall (f_ok (length P0 + item_hdepth (IAot ts None)) (item_vdepth (IAot ts None))) Fs /\
                 flat_map ftab_stmts Fs = flat_map (fun L => D.SArrHeader (P0 ++ [k]) :: body_stmts (P0 ++ [k]) L) Ls).
-    { unfold ts. clear ts. induction Hls as [|l ls Hl _ IH].
+    { unfold ts. clear ts. induction Hls as [|[im l] ls Hl _ IH].
       - exists [], []. repeat split; constructor.
-      - destruct IH as (Fs2 & Ls2 & E1 & W1 & T1 & O1 & S1).
-        destruct (Hl (P0 ++ [k]) true None (or_introl eq_refl) HP') as (Fs & L & Eabs & Hwf & Etab & Hok & Estm).
-        exists (Fs ++ Fs2), (L :: Ls2). cbn [map flat_map].
-        change (Tbl (mk_tbl_items l) decor_default false false None None) with (the_tbl l None).
-        split; [rewrite Eabs, E1; reflexivity|]. split; [constructor; assumption|].
+      - destruct IH as (Fs2 & Ls2 & E1 & W1 & N1 & T1 & O1 & S1). cbn [snd] in Hl.
+        destruct (Hl (P0 ++ [k]) true im None (or_introl eq_refl) HP') as (Fs & L & Eabs & Hwf & Etab & Hok & Estm & _ & _).
+        exists (Fs ++ Fs2), (L :: Ls2). cbn [map flat_map fst snd length].
+        change (Tbl (mk_tbl_items l) decor_default im false None None) with (the_tbl im l None).
+        split; [rewrite Eabs, E1; reflexivity|]. split; [constructor; assumption|]. split; [rewrite N1; reflexivity|].
         split; [rewrite Etab, T1, map_app; reflexivity|]. split.
         + apply Forall_app. split.
           * eapply Forall_impl; [|exact Hok]. intros f Hf. eapply f_ok_mono; [| |exact Hf].
@@ -142,31 +172,41 @@ Section Claims.
             -- cbn [item_hdepth fold_right]. lia.
             -- cbn [item_vdepth fold_right]. lia.
         + rewrite flat_map_app, Estm, S1, hdr_stmt_snoc. reflexivity. }
-    destruct G as (Fs & Ls & E1 & W1 & T1 & O1 & S1).
-    exists Fs, (AAot Ls). split; [cbn [abs_item]; rewrite E1; reflexivity|].
+    destruct G as (Fs & Ls & E1 & W1 & N1 & T1 & O1 & S1).
+    exists Fs, (SAot Ls). split.
+    { cbn [abs_item forget]. rewrite E1. reflexivity. }
     split; [constructor; exact W1|]. split; [exact T1|]. split; [exact O1|].
-    rewrite S1, node_stmts_aot. reflexivity.
+    split; [rewrite S1, node_stmts_aot; reflexivity|].
+    intro Hpr. right. intro P. rewrite node_stmts_aot.
+    destruct ls as [|x ls']; [discriminate Hpr|]. destruct Ls as [|L Ls']; [discriminate N1|]. cbn [flat_map]. discriminate.
+  Qed.
+
+  Lemma app_nonnil {A} (a b c d : list A) : b ++ d <> [] -> (a ++ b) ++ (c ++ d) <> [].
+  Proof.
+    intros H E. apply H. apply (f_equal (@length A)) in E. rewrite !app_length in E. cbn [length] in E.
+    destruct b, d; try reflexivity; cbn [length] in E; lia.
   Qed.
 
   Lemma claim_entries l :
     NoDup (map fst l) -> Forall PK (map fst l) -> Forall (BuiltItem PS PK) (map snd l) -> Forall item_claim (map snd l) ->
     entries_claim l.
   Proof.
-    intros Hnd Hk Hb Hcl P a pos Hpos HP.
-    set (hb := length P + tbl_hdepth (the_tbl l pos)). set (vb := tbl_vdepth (the_tbl l pos)).
+    intros Hnd Hk Hb Hcl P a im pos Hpos HP.
+    set (hb := length P + tbl_hdepth (the_tbl im l pos)). set (vb := tbl_vdepth (the_tbl im l pos)).
     assert (G : forall l', (forall kv, In kv l' -> In kv l) -> Forall PK (map fst l') -> Forall item_claim (map snd l') ->
               exists Fsub Lsub,
-                flat_map (fun kv => map (fun n => (fst kv, n)) (abs_item (snd kv))) l' = Lsub /\
+                flat_map (fun kv => map (fun n => (fst kv, n)) (abs_item (snd kv))) l' = forget_entries Lsub /\
                 map fst Lsub = map fst l' /\ Forall wf_node (map snd Lsub) /\
                 flat_map (fun kv => item_tables (map key_new P ++ [key_new (fst kv)]) (snd kv)) l' = map f_tbl Fsub /\
                 Forall (f_ok hb vb) Fsub /\
                 flat_map ftab_stmts Fsub = flat_map (fun kv => node_stmts (P ++ [fst kv]) (snd kv)) Lsub /\
-                kv_stmts Lsub = val_stmts l').
+                kv_stmts Lsub = val_stmts l' /\
+                (existsb (fun kv => item_prints (snd kv)) l' = true -> forall P', body_stmts P' Lsub <> [])).
     { induction l' as [|[k it] l' IH]; intros Hsub Hk' Hcl'.
-      - exists [], []. repeat split; constructor.
+      - exists [], []. repeat split; try constructor. intro H. discriminate H.
       - cbn [map fst snd] in Hk', Hcl'. inversion Hk' as [|? ? Hk0 Hk1]; subst. inversion Hcl' as [|? ? Hc0 Hc1]; subst.
-        destruct (IH (fun kv H => Hsub kv (or_intror H)) Hk1 Hc1) as (Fs2 & L2 & E2 & K2 & W2 & T2 & O2 & S2 & V2).
-        destruct (Hc0 P k HP Hk0) as (Fs1 & n & En & Wn & Tn & On & Sn).
+        destruct (IH (fun kv H => Hsub kv (or_intror H)) Hk1 Hc1) as (Fs2 & L2 & E2 & K2 & W2 & T2 & O2 & S2 & V2 & R2).
+        destruct (Hc0 P k HP Hk0) as (Fs1 & n & En & Wn & Tn & On & Sn & Rn).
         exists (Fs1 ++ Fs2), ((k, n) :: L2). cbn [flat_map map fst snd].
         split; [rewrite En, E2; reflexivity|]. split; [rewrite K2; reflexivity|]. split; [constructor; assumption|].
         split; [rewrite map_app in Tn; cbn [map] in Tn; rewrite Tn, T2, map_app; reflexivity|]. split.
@@ -178,23 +218,33 @@ Section Claims.
           * unfold vb. rewrite vdepth_the.
             pose proof (fold_max_in (fun kv : bytes * item => item_vdepth (snd kv)) l (k, it) (Hsub _ (or_introl eq_refl))) as H.
             cbn [snd] in H. lia.
-        + split; [rewrite flat_map_app, Sn, S2; reflexivity|].
-          unfold kv_stmts, val_stmts in *. cbn [flat_map fst snd]. rewrite V2. f_equal.
-          destruct it as [|v|sub|ts sp0]; cbn [abs_item] in En; try discriminate; injection En as <-; reflexivity. }
-    destruct (G l (fun kv H => H) Hk Hcl) as (Fsub & L & E & K & W & Tt & O & S & V).
-    exists (mkF P a l pos :: Fsub), L.
+        + split; [rewrite flat_map_app, Sn, S2; reflexivity|]. split.
+          * unfold kv_stmts, val_stmts in *. cbn [flat_map fst snd]. rewrite V2. f_equal.
+            destruct it as [|v|sub|ts sp0]; cbn [abs_item] in En; try discriminate;
+              destruct n; cbn [forget] in En; try discriminate; try reflexivity.
+            injection En as <-. reflexivity.
+          * cbn [existsb snd]. intros Hex P'. unfold body_stmts, kv_stmts. cbn [flat_map fst snd].
+            apply orb_true_iff in Hex as [Hit | Hrest].
+            -- destruct (Rn Hit) as [(a0 & ->) | Hne].
+               ++ cbn [app]. discriminate.
+               ++ intro E. apply (f_equal (@length (D.stmt aval))) in E. rewrite !app_length in E.
+                  specialize (Hne (P' ++ [k])). destruct (node_stmts (P' ++ [k]) n); [contradiction|cbn [length] in E; lia].
+            -- apply app_nonnil. exact (R2 Hrest P'). }
+    destruct (G l (fun kv H => H) Hk Hcl) as (Fsub & L & E & K & W & Tt & O & S & V & R).
+    exists (mkF P a im l pos :: Fsub), L.
     split; [rewrite abs_tbl_the; exact E|].
     split; [split; [rewrite K; exact Hnd|exact W]|].
-    split; [rewrite tbl_tables_the; cbn [map f_tbl f_l f_pos f_P f_a]; rewrite Tt; reflexivity|].
+    split; [rewrite tbl_tables_the; cbn [map f_tbl f_l f_pos f_P f_a f_im]; rewrite Tt; reflexivity|].
     split.
     - constructor; [|exact O]. unfold f_ok. cbn [f_l f_pos f_P].
       split.
       { intros k it Hin. rewrite Forall_forall in Hb. specialize (Hb it (in_map snd _ _ Hin)).
-        destruct Hb as [v Hv | l0 _ | ls0 _]; [exact Hv|reflexivity|exact I]. }
+        destruct Hb as [v Hv | im0 l0 _ _ | ls0 _]; [exact Hv|reflexivity|exact I]. }
       split; [exact Hpos|]. split; [exact HP|]. split; [exact Hk|]. split; [unfold hb; lia|].
       intros k v Hin. unfold vb. rewrite vdepth_the.
       pose proof (fold_max_in (fun kv : bytes * item => item_vdepth (snd kv)) l (k, IValue v) Hin) as H. cbn [snd item_vdepth] in H. exact H.
-    - cbn [flat_map]. unfold ftab_stmts at 1. cbn [f_P f_a f_l]. rewrite S. unfold body_stmts. rewrite V, <- app_assoc. reflexivity.
+    - split; [|split; [exact V|exact R]].
+      cbn [flat_map]. unfold ftab_stmts at 1. cbn [f_P f_a f_l f_im]. rewrite S. unfold body_stmts. rewrite V, <- app_assoc. reflexivity.
   Qed.
 
   Theorem flat_claims :
@@ -202,7 +252,7 @@ Section Claims.
   Proof.
     apply Built_strong.
     - exact claim_value.
-    - intros l _ Hl. apply claim_table, Hl.
+    - intros im l _ Hp Hl. apply claim_table; assumption.
     - intros ls _ Hls. apply claim_aot, Hls.
     - exact claim_entries.
   Qed.
@@ -220,39 +270,51 @@ Definition conv (t : D.stree aval) : list (bytes * anode) := map (fun kn => (fst
 Lemma conv_app a b : conv (a ++ b) = conv a ++ conv b.
 Proof. unfold conv. apply map_app. Qed.
 
-Lemma conv_kv_res l : conv (kv_res l) = val_entries l.
+Lemma conv_kv_res l : conv (kv_res l) = val_entries (forget_entries l).
 Proof.
-  unfold kv_res, val_entries. induction l as [|[k n] l IH]; [reflexivity|]. cbn [flat_map fst snd].
+  unfold kv_res, val_entries, forget_entries. induction l as [|[k n] l IH]; [reflexivity|]. cbn [flat_map map fst snd].
   rewrite conv_app, IH. destruct n; reflexivity.
 Qed.
 
-Lemma conv_node_res : forall n, map conv_node (node_res n) = printed_node n.
+Lemma snode_strong (P : snode -> Prop) :
+  (forall a, P (SVal a)) ->
+  (forall hid l, Forall (fun kv => P (snd kv)) l -> P (STbl hid l)) ->
+  (forall ls, Forall (Forall (fun kv => P (snd kv))) ls -> P (SAot ls)) ->
+  forall n, P n.
 Proof.
-  fix IH 1. intros [a|l|ls].
-  - reflexivity.
-  - cbn [node_res printed_node map conv_node]. f_equal. f_equal.
-    change (map (fun kn => (fst kn, conv_node (snd kn))) ?X) with (conv X). rewrite conv_app, conv_kv_res. f_equal.
-    induction l as [|[k n] l IHl]; [reflexivity|]. cbn [flat_map fst snd]. rewrite conv_app, IHl. f_equal.
-    unfold conv. rewrite map_map. cbn [fst snd]. rewrite <- (IH n), map_map. reflexivity.
-  - assert (G : forall l, map (fun kn => (fst kn, conv_node (snd kn))) (body_res l) = printed_entries l).
-    { intro l. unfold body_res, printed_entries.
-      change (map (fun kn => (fst kn, conv_node (snd kn))) ?X) with (conv X). rewrite conv_app, conv_kv_res. f_equal.
-      induction l as [|[k n] l IHl]; [reflexivity|]. cbn [flat_map fst snd]. rewrite conv_app, IHl. f_equal.
-      unfold conv. rewrite map_map. cbn [fst snd]. rewrite <- (IH n), map_map. reflexivity. }
-    rewrite node_res_aot.
-    assert (Ep : printed_node (AAot ls) = match ls with [] => [] | _ => [AAot (map printed_entries ls)] end)
-      by (destruct ls; reflexivity).
-    rewrite Ep. destruct ls as [|l0 ls]; [reflexivity|]. generalize (l0 :: ls). intro LS.
-    cbn [map conv_node]. f_equal. f_equal. rewrite map_map.
-    induction LS as [|l LS IHLS]; [reflexivity|]. cbn [map]. rewrite G, IHLS. reflexivity.
+  intros H1 H2 H3. fix IH 1. intros [a|hid l|ls].
+  - apply H1.
+  - apply H2. induction l as [|[k n] l IHl]; constructor; [apply IH|exact IHl].
+  - apply H3. induction ls as [|l ls IHls]; constructor; [|exact IHls].
+    induction l as [|[k n] l IHl]; constructor; [apply IH|exact IHl].
 Qed.
 
-Lemma conv_body_res l : conv (body_res l) = printed_entries l.
+Lemma conv_body_res_if l :
+  Forall (fun kv => map conv_node (node_res (snd kv)) = printed_node (forget (snd kv))) l ->
+  conv (body_res l) = printed_entries (forget_entries l).
 Proof.
-  unfold body_res, printed_entries. rewrite conv_app, conv_kv_res. f_equal.
-  induction l as [|[k n] l IHl]; [reflexivity|]. cbn [flat_map fst snd]. rewrite conv_app, IHl. f_equal.
-  unfold conv. rewrite map_map. cbn [fst snd]. rewrite <- (conv_node_res n), map_map. reflexivity.
+  intro H. unfold body_res, printed_entries. rewrite conv_app, conv_kv_res. f_equal.
+  unfold forget_entries. induction H as [|[k n] l Hn _ IHl]; [reflexivity|]. cbn [flat_map map fst snd] in *.
+  rewrite conv_app, IHl. f_equal. unfold conv. rewrite map_map. cbn [fst snd]. rewrite <- Hn, map_map. reflexivity.
 Qed.
+
+Lemma conv_node_res : forall n, map conv_node (node_res n) = printed_node (forget n).
+Proof.
+  apply snode_strong.
+  - reflexivity.
+  - intros hid l IH. rewrite node_res_tbl. cbn [map conv_node forget printed_node]. f_equal. f_equal.
+    exact (conv_body_res_if l IH).
+  - intros ls IH. rewrite node_res_aot. destruct ls as [|l0 ls]; [reflexivity|].
+    change (forget (SAot (l0 :: ls))) with (AAot (map forget_entries (l0 :: ls))).
+    set (LS := l0 :: ls) in *.
+    assert (Ep : printed_node (AAot (map forget_entries LS)) = [AAot (map printed_entries (map forget_entries LS))]) by reflexivity.
+    rewrite Ep. cbn [map conv_node]. f_equal. f_equal. rewrite !map_map.
+    clear Ep. clearbody LS. induction IH as [|l LS' Hl _ IHLS]; [reflexivity|]. cbn [map]. rewrite IHLS. f_equal.
+    exact (conv_body_res_if l Hl).
+Qed.
+
+Lemma conv_body_res l : conv (body_res l) = printed_entries (forget_entries l).
+Proof. apply conv_body_res_if. apply Forall_forall. intros kv _. apply conv_node_res. Qed.
 
 (* the two abstractions of a parsed tree agree (it holds no Item::None) *)
 Lemma abs_conv : forall t, DB.mok_tbl t = true -> abs_tbl t = conv (map_tree abs_value (DB.abs_tbl t)).
@@ -280,7 +342,8 @@ Section Doc.
   Fixpoint tables_lines (Fs : list ftab) (first : bool) : list dline :=
     match Fs with
     | [] => []
-    | f :: tl => table_lines (f_P f) (f_a f) first (f_l f) ++ tables_lines tl (table_first (f_P f) first (f_l f))
+    | f :: tl => table_lines (f_P f) (f_a f) (f_im f) first (f_l f)
+                 ++ tables_lines tl (table_first (f_P f) (f_a f) (f_im f) first (f_l f))
     end.
 
   Lemma visit_tables_flat Fs : Forall (fun f => entries_flat PS PK (f_l f)) Fs -> forall first,
@@ -288,7 +351,7 @@ Section Doc.
   Proof.
     induction 1 as [|f Fs Hf _ IH]; intro first; [reflexivity|].
     cbn [map visit_tables f_tbl r3 fst snd tables_lines].
-    rewrite (visit_table_flat ftext PS PK (f_P f) (f_a f) first (f_l f) (f_pos f) Hf).
+    rewrite (visit_table_flat ftext PS PK (f_P f) (f_a f) (f_im f) first (f_l f) (f_pos f) Hf).
     rewrite lines_txt_app, IH. reflexivity.
   Qed.
 
@@ -306,7 +369,8 @@ Section Doc.
     induction Fs as [|f Fs IH]; intro first; [reflexivity|]. cbn [tables_lines flat_map].
     rewrite lines_stmts_app, IH. f_equal. unfold table_lines, ftab_stmts, hdr_stmt.
     rewrite lines_stmts_app, val_lines_stmts. f_equal.
-    destruct (f_P f) as [|k0 P']; [reflexivity|]. destruct first, (f_a f); reflexivity.
+    destruct (f_P f) as [|k0 P']; [reflexivity|]. destruct (shown (f_a f) (f_im f) (f_l f)); [|reflexivity].
+    destruct first, (f_a f); reflexivity.
   Qed.
 
   Lemma tables_lines_ok hb vb Fs : hb < LIMIT -> vb < LIMIT -> Forall (f_ok PS PK hb vb) Fs ->
@@ -315,7 +379,8 @@ Section Doc.
     intros Hh Hv. induction 1 as [|f Fs Hf _ IH]; intro first; [constructor|]. cbn [tables_lines].
     apply Forall_app. split; [|apply IH].
     destruct Hf as (Hflat & _ & HP & Hkeys & Hlen & Hdep). unfold table_lines. apply Forall_app. split.
-    - destruct (f_P f) as [|k0 P'] eqn:EP; [constructor|]. apply Forall_app. split; [destruct first; repeat constructor|].
+    - destruct (f_P f) as [|k0 P'] eqn:EP; [constructor|]. destruct (shown (f_a f) (f_im f) (f_l f)); [|constructor].
+      apply Forall_app. split; [destruct first; repeat constructor|].
       constructor; [|constructor]. cbn [line_ok]. split; [discriminate|]. split; [exact HP|]. lia.
     - unfold val_lines. apply Forall_forall. intros ln Hin. apply in_flat_map in Hin as ([k it] & Hkv & Hln). cbn [fst snd] in Hln.
       destruct it as [|v|sub|ts sp0]; try contradiction. destruct Hln as [<-|[]]. cbn [line_ok].
@@ -329,12 +394,12 @@ Section Doc.
     exists d, parse_document (display_document (render_tbl ftext t) REmpty) = POk d
               /\ abs_tbl (doc_root d) = printed_entries (abs_tbl t).
   Proof.
-    intros (l & pos & Hl & Hpos & ->) Hh Hv. fold (the_tbl l pos) in *.
+    intros (l & im & pos & Hl & Hpos & ->) Hh Hv. fold (the_tbl im l pos) in *.
     destruct (flat_claims PS PK) as [_ Hent].
-    destruct (Hent l Hl [] false pos Hpos (Forall_nil _)) as (Fs & L & Eabs & Hwf & Etab & Hok & Estm).
+    destruct (Hent l Hl [] false im pos Hpos (Forall_nil _)) as (Fs & L & Eabs & Hwf & Etab & Hok & Estm & _ & _).
     cbn [length Nat.add hdr_stmt app map] in *.
     (* the printed text *)
-    assert (Etxt : display_document (render_tbl ftext (the_tbl l pos)) REmpty = lines_txt ftext (tables_lines Fs true)).
+    assert (Etxt : display_document (render_tbl ftext (the_tbl im l pos)) REmpty = lines_txt ftext (tables_lines Fs true)).
     { unfold display_document.
       rewrite nested_tables_eq by lia. rewrite tbl_tables_render, Etab.
       rewrite assign_positions_zero.
@@ -343,7 +408,7 @@ Section Doc.
       rewrite stable_sort_zero by (apply Forall_forall; intros y Hy; apply in_map_iff in Hy as (x & <- & _); reflexivity).
       rewrite visit_tables_flat.
       2:{ eapply Forall_impl; [|exact Hok]. intros f (Hf & _). exact Hf. }
-      assert (Ed : t_decor (render_tbl ftext (the_tbl l pos)) = decor_default) by reflexivity. rewrite Ed.
+      assert (Ed : t_decor (render_tbl ftext (the_tbl im l pos)) = decor_default) by reflexivity. rewrite Ed.
       unfold decor_prefix, decor_suffix. cbn. rewrite !app_nil_r. reflexivity. }
     rewrite Etxt.
     destruct (doc_fold L Hwf) as (cur' & Efold).
@@ -363,7 +428,7 @@ Lemma Built_mono (PS PS' : scalar -> Prop) (PK PK' : bytes -> Prop) :
 Proof.
   intros HS HK. apply Built_strong.
   - intros v Hv. constructor. apply (BuiltValue_mono PS PS' PK PK' HS HK v Hv).
-  - intros l _ Hl. constructor. exact Hl.
+  - intros im l _ Hp Hl. constructor; assumption.
   - intros ls _ Hls. constructor. exact Hls.
   - intros l Hnd Hk _ IH. constructor; [exact Hnd| |exact IH]. rewrite Forall_forall in *. auto.
 Qed.
@@ -373,8 +438,8 @@ Theorem document_roundtrip t :
   exists d, parse_document (display_document (render_tbl float_text t) REmpty) = POk d
             /\ abs_tbl (doc_root d) = printed_entries (abs_tbl t).
 Proof.
-  intros (l & pos & Hl & Hpos & ->) Hh Hv. apply built_document_roundtrip; [|exact Hh|exact Hv].
-  exists l, pos. split; [|auto].
+  intros (l & im & pos & Hl & Hpos & ->) Hh Hv. apply built_document_roundtrip; [|exact Hh|exact Hv].
+  exists l, im, pos. split; [|auto].
   apply (proj2 (Built_mono scalar_ok (leaf_ok float_text) key_ok key_ok scalar_leaf (fun k H => H))), Hl.
 Qed.
 
